@@ -9,6 +9,7 @@
 package main
 
 import (
+	"encoding/json"
 	"fmt"
 	"io"
 	"log"
@@ -506,6 +507,10 @@ func (c *ctx) runOp(line string) result {
 		return c.opCheck(line, g)
 	case "probe":
 		return result{out: c.opProbe(line)}
+	case "entries":
+		return result{out: guardOp(c, line, func() string { return c.opEntries(line, g) })}
+	case "aux":
+		return result{out: guardOp(c, line, func() string { return c.opAux(line, g) })}
 	case "bigcheck", "bigmap":
 		return result{out: guardOp(c, line, func() string { return c.opBig(line, g, ws[0] == "bigmap") })}
 	case "map":
@@ -833,6 +838,386 @@ func (c *ctx) opRev2(line string, g *graph) string {
 		}
 	}
 	return showGraph(r2)
+}
+
+// ---------------------------------------------------------------- every exported entry point
+
+func verdictWord(sc *scheme, err error) string {
+	s, _ := classify(sc, err)
+	if i := strings.IndexByte(s, ' '); i > 0 {
+		s = s[:i]
+	}
+	return s
+}
+
+// opEntries runs every exported function of the package that validates a
+// graph and requires one verdict: accepted exactly when all edge targets
+// exist and the graph is acyclic (RevLayout*: exactly when acyclic, since
+// Graph.Reverse turns missing targets into nodes).  TopoSort's order is checked
+// to be a permutation of the nodes with every edge forward.
+func (c *ctx) opEntries(line string, g *graph) string {
+	t := analyse(g, false)
+	want := t.closed && t.acyclic
+	wantWord := "ok"
+	if !t.closed {
+		wantWord = "missing"
+	} else if !t.acyclic {
+		wantWord = "circle"
+	}
+	judge := func(entry, got string, wantOK bool, wantW string) {
+		switch {
+		case got == "ok" && !wantOK:
+			c.fail("entry-accepts-bad-graph:"+entry, entry+" accepted a graph that is cyclic or has an edge to a missing node (CheckDAG's answer would be "+wantW+")", line)
+		case got != "ok" && wantOK:
+			c.fail("entry-rejects-dag:"+entry, entry+" rejected an acyclic graph whose edge targets all exist: "+got, line)
+		case got != wantW:
+			c.fail("entry-verdict:"+entry, entry+" answered "+got+", expected "+wantW, line)
+		}
+	}
+	var b strings.Builder
+	put := func(entry, got string) { fmt.Fprintf(&b, "%s=%s ", entry, got) }
+
+	v := verdictWord(g.sc, dags.CheckDAG(g.dags()))
+	judge("CheckDAG", v, want, wantWord)
+	put("check", v)
+
+	_, err := dags.NewMap(g.dags())
+	v = verdictWord(g.sc, err)
+	judge("NewMap", v, want, wantWord)
+	put("map", v)
+
+	order, err := dags.TopoSort(g.dags())
+	v = verdictWord(g.sc, err)
+	judge("TopoSort", v, want, wantWord)
+	if err == nil {
+		pos := map[int]int{}
+		var ids []string
+		for i, nm := range order {
+			id := g.sc.unname(nm)
+			if _, dup := pos[id]; dup {
+				c.fail("topo-order-repeats", "TopoSort lists a node twice", line)
+			}
+			pos[id] = i
+			ids = append(ids, strconv.Itoa(id))
+		}
+		if len(order) != len(g.keys) {
+			c.fail("topo-order-incomplete", fmt.Sprintf("TopoSort lists %d of %d nodes", len(order), len(g.keys)), line)
+		}
+		for _, k := range g.keys {
+			pk, ok := pos[k]
+			if !ok {
+				c.fail("topo-order-incomplete", fmt.Sprintf("TopoSort does not list node %d", k), line)
+				continue
+			}
+			for _, x := range g.adj[k] {
+				if px, ok := pos[x]; ok && !(pk < px) {
+					c.fail("topo-order-wrong", fmt.Sprintf("edge %d->%d but TopoSort puts %d at %d and %d at %d", k, x, k, pk, x, px), line)
+				}
+			}
+		}
+		if len(ids) == 0 {
+			v = "ok:-"
+		} else {
+			v = "ok:" + strings.Join(ids, ",")
+		}
+	}
+	put("topo", v)
+
+	_, view, err := dags.Layout(g.dags())
+	v = verdictWord(g.sc, err)
+	judge("Layout", v, want, wantWord)
+	put("layout", v)
+
+	js, err := dags.LayoutJSON(g.dags())
+	v = verdictWord(g.sc, err)
+	judge("LayoutJSON", v, want, wantWord)
+	put("layoutjson", v)
+	if err == nil && view != nil {
+		c.checkJSON("LayoutJSON", js, view, line)
+	}
+
+	revWord := "ok"
+	if !t.acyclic {
+		revWord = "circle"
+	}
+	_, rview, err := dags.RevLayout(g.dags())
+	v = verdictWord(g.sc, err)
+	judge("RevLayout", v, t.acyclic, revWord)
+	put("revlayout", v)
+
+	js, err = dags.RevLayoutJSON(g.dags())
+	v = verdictWord(g.sc, err)
+	judge("RevLayoutJSON", v, t.acyclic, revWord)
+	put("revlayoutjson", v)
+	if err == nil && rview != nil {
+		c.checkJSON("RevLayoutJSON", js, rview, line)
+	}
+	return strings.TrimSpace(b.String())
+}
+
+// checkJSON: the JSON form carries the view's size, coordinates and critical lists.
+func (c *ctx) checkJSON(entry string, js []byte, view *dags.MapView, line string) {
+	var m dags.M
+	if err := json.Unmarshal(js, &m); err != nil {
+		c.fail("json-invalid:"+entry, entry+" produced invalid JSON: "+err.Error(), line)
+		return
+	}
+	bad := m.Height != view.Height || m.Width != view.Width || len(m.Nodes) != len(view.Nodes)
+	for nm, nv := range view.Nodes {
+		n := m.Nodes[nm]
+		if n == nil || n.X != nv.X || n.Y != nv.Y || n.F != nm ||
+			strings.Join(n.Ins, ",") != strings.Join(nv.CritIns, ",") || strings.Join(n.Outs, ",") != strings.Join(nv.CritOuts, ",") {
+			bad = true
+		}
+	}
+	if bad {
+		c.fail("json-differs:"+entry, entry+" differs from the view of the same layout", line)
+	}
+}
+
+// opAux drives the exported functions that do not validate: Graph.Remove,
+// SubGraph, Rename; on accepted graphs Closure (every node subset up to 4
+// nodes), AllInsSorted, Map.SortedNodes, Map.Reverse, MapView.Reverse, Output.
+func (c *ctx) opAux(line string, g *graph) string {
+	t := analyse(g, true)
+	sc := g.sc
+	sortedCopy := func(xs []int) []int {
+		ys := append([]int(nil), xs...)
+		sort.Ints(ys)
+		return ys
+	}
+	// Remove
+	for _, r := range g.keys {
+		want := &graph{adj: map[int][]int{}}
+		for _, k := range g.keys {
+			if k == r {
+				continue
+			}
+			want.keys = append(want.keys, k)
+			var outs []int
+			for _, x := range g.adj[k] {
+				if x != r {
+					outs = append(outs, x)
+				}
+			}
+			want.adj[k] = outs
+		}
+		if got := showGraph(fromDags(sc, g.dags().Remove(sc.name(r)))); got != showGraph(want) {
+			c.fail("remove-wrong", fmt.Sprintf("Remove(%d) gives %s, expected %s", r, got, showGraph(want)), line)
+		}
+	}
+	// SubGraph: nodes with an even id
+	{
+		keep := func(i int) bool { return i%2 == 0 }
+		want := &graph{adj: map[int][]int{}}
+		for _, k := range g.keys {
+			if !keep(k) {
+				continue
+			}
+			want.keys = append(want.keys, k)
+			var outs []int
+			for _, x := range g.adj[k] {
+				if keep(x) && t.idx != nil {
+					if _, isKey := t.idx[x]; isKey {
+						outs = append(outs, x)
+					}
+				}
+			}
+			want.adj[k] = outs
+		}
+		got := showGraph(fromDags(sc, g.dags().SubGraph(func(s string) bool { return keep(sc.unname(s)) })))
+		if got != showGraph(want) {
+			c.fail("subgraph-wrong", "SubGraph(even ids) gives "+got+", expected "+showGraph(want), line)
+		}
+	}
+	// Rename: append a letter (keeps the order); fails exactly when a target is missing
+	{
+		r, err := g.dags().Rename(func(s string) (string, error) { return s + "r", nil })
+		if (err == nil) != t.closed {
+			c.fail("rename-verdict", fmt.Sprintf("Rename error=%v on a graph with closed=%v", err, t.closed), line)
+		}
+		if err == nil {
+			back, _ := r.Rename(func(s string) (string, error) { return strings.TrimSuffix(s, "r"), nil })
+			want := &graph{adj: map[int][]int{}, keys: g.keys}
+			for _, k := range g.keys {
+				want.adj[k] = sortedCopy(g.adj[k])
+			}
+			if got := showGraph(fromDags(sc, back)); got != showGraph(want) {
+				c.fail("rename-wrong", "Rename there and back gives "+got+", expected "+showGraph(want), line)
+			}
+		}
+	}
+	if !t.closed || !t.acyclic {
+		return "aux-rejected"
+	}
+	m, err := dags.NewMap(g.dags())
+	if err != nil {
+		return "aux-newmap-" + verdictWord(sc, err)
+	}
+	layer := map[int]int{}
+	for i, l := range m.SortedLayers() {
+		for _, nd := range l {
+			layer[sc.unname(nd.Name)] = i
+		}
+	}
+	less := func(a, b int) bool {
+		if layer[a] != layer[b] {
+			return layer[a] < layer[b]
+		}
+		return sc.name(a) < sc.name(b)
+	}
+	// SortedNodes: by layer, then name
+	{
+		var got []int
+		for _, nd := range m.SortedNodes() {
+			got = append(got, sc.unname(nd.Name))
+		}
+		want := append([]int(nil), g.keys...)
+		sort.Slice(want, func(i, j int) bool { return less(want[i], want[j]) })
+		if fmt.Sprint(got) != fmt.Sprint(want) {
+			c.fail("sortednodes-wrong", fmt.Sprintf("SortedNodes %v, expected %v", got, want), line)
+		}
+	}
+	// AllInsSorted: the ancestors, by layer then name
+	for _, k := range g.keys {
+		var got, want []int
+		for _, nd := range dags.AllInsSorted(m.Nodes[sc.name(k)]) {
+			got = append(got, sc.unname(nd.Name))
+		}
+		for _, a := range g.keys {
+			if t.reach[t.idx[a]][t.idx[k]] {
+				want = append(want, a)
+			}
+		}
+		sort.Slice(want, func(i, j int) bool { return less(want[i], want[j]) })
+		if fmt.Sprint(got) != fmt.Sprint(want) {
+			c.fail("allinssorted-wrong", fmt.Sprintf("AllInsSorted(%d) %v, expected %v", k, got, want), line)
+		}
+	}
+	// Closure of every subset (graphs up to 4 nodes): the subset plus the nodes between two of its members
+	if n := len(g.keys); n <= 4 {
+		for mask := 1; mask < 1<<uint(n); mask++ {
+			var sub []string
+			in := map[int]bool{}
+			for i, k := range g.keys {
+				if mask>>uint(i)&1 == 1 {
+					sub = append(sub, sc.name(k))
+					in[k] = true
+				}
+			}
+			want := map[int]bool{}
+			for k := range in {
+				want[k] = true
+			}
+			for _, x := range g.keys {
+				below, above := false, false
+				for k := range in {
+					if t.reach[t.idx[x]][t.idx[k]] {
+						below = true // x reaches a member
+					}
+					if t.reach[t.idx[k]][t.idx[x]] {
+						above = true // a member reaches x
+					}
+				}
+				if below && above {
+					want[x] = true
+				}
+			}
+			cm := dags.Closure(m, sub)
+			ok := len(cm.Nodes) == len(want)
+			for nm, nd := range cm.Nodes {
+				id := sc.unname(nm)
+				if !want[id] {
+					ok = false
+					continue
+				}
+				for _, y := range g.keys { // induced edges
+					_, has := nd.Outs[sc.name(y)]
+					if has != (want[y] && t.edge[t.idx[id]][t.idx[y]]) {
+						ok = false
+					}
+				}
+			}
+			if !ok {
+				c.fail("closure-wrong", fmt.Sprintf("Closure(%v) has nodes %v, expected the induced map on %v", sub, sortedCopy(keysOf(sc, cm.Nodes)), want), line)
+			}
+		}
+	}
+	// Map.Reverse: ins and outs swapped, layers mirrored; twice = identity
+	{
+		snap := func() string {
+			var b strings.Builder
+			ls := m.SortedLayers()
+			for _, k := range sortedCopy(g.keys) {
+				nd := m.Nodes[sc.name(k)]
+				l := -1
+				for i, lay := range ls {
+					for _, x := range lay {
+						if x == nd {
+							l = i
+						}
+					}
+				}
+				fmt.Fprintf(&b, "%d;%d;%s;%s;%s;%s;%s;%s ", k, l, sortedInts(keysOf(sc, nd.Ins)), sortedInts(keysOf(sc, nd.Outs)),
+					sortedInts(keysOf(sc, nd.AllIns)), sortedInts(keysOf(sc, nd.AllOuts)), sortedInts(keysOf(sc, nd.CritIns)), sortedInts(keysOf(sc, nd.CritOuts)))
+			}
+			return b.String()
+		}
+		before := snap()
+		m.Reverse()
+		mid := snap()
+		var wantMid strings.Builder
+		for _, w := range strings.Fields(before) {
+			p := strings.Split(w, ";")
+			l, _ := strconv.Atoi(p[1])
+			fmt.Fprintf(&wantMid, "%s;%d;%s;%s;%s;%s;%s;%s ", p[0], m.Nlayer-1-l, p[3], p[2], p[5], p[4], p[7], p[6])
+		}
+		if mid != wantMid.String() {
+			c.fail("map-reverse-wrong", "Map.Reverse gives "+mid+", expected "+wantMid.String(), line)
+		}
+		m.Reverse()
+		if after := snap(); after != before {
+			c.fail("map-reverse-twice", "Map.Reverse twice gives "+after+", the map was "+before, line)
+		}
+	}
+	// MapView.Reverse and Output
+	{
+		v := dags.LayoutMap(m)
+		v.AssignDisplayName(func(s string) string { return "d" + s })
+		type p struct{ x, y int }
+		before := map[string]p{}
+		for nm, nv := range v.Nodes {
+			before[nm] = p{nv.X, nv.Y}
+		}
+		top := v.IsTopDown
+		v.Reverse()
+		for nm, nv := range v.Nodes {
+			if nv.X != v.Width-1-before[nm].x || nv.Y != before[nm].y {
+				c.fail("view-reverse-wrong", "MapView.Reverse does not mirror X", line)
+			}
+		}
+		if v.IsTopDown == top {
+			c.fail("view-reverse-wrong", "MapView.Reverse does not flip IsTopDown", line)
+		}
+		out := dags.Output(v)
+		bad := out.Height != v.Height || out.Width != v.Width || len(out.Nodes) != len(v.Nodes)
+		for nm, nv := range v.Nodes {
+			n := out.Nodes[nm]
+			if n == nil || n.X != nv.X || n.Y != nv.Y || n.F != nm || n.N != "d"+nm {
+				bad = true
+			}
+		}
+		if bad {
+			c.fail("output-wrong", "Output differs from the view", line)
+		}
+		v.Reverse()
+		for nm, nv := range v.Nodes {
+			if (p{nv.X, nv.Y}) != before[nm] {
+				c.fail("view-reverse-twice", "MapView.Reverse twice does not restore the coordinates", line)
+			}
+		}
+	}
+	return "aux-ok"
 }
 
 // ---------------------------------------------------------------- very wide graphs (no model, sparse oracle)
@@ -1214,7 +1599,7 @@ func (c *ctx) batch(driver string, ops []string, register bool) {
 	var drvIdx []int // ops the model sees ("big..." ops are oracle-only)
 	var all []string
 	for i, op := range ops {
-		if !strings.HasPrefix(op, "big") {
+		if !strings.HasPrefix(op, "big") && !strings.HasPrefix(op, "aux ") && op != "aux" {
 			drvIdx = append(drvIdx, i)
 			all = append(all, op)
 		}
@@ -1325,6 +1710,12 @@ func parallel(n, chunk int, f func(lo, hi int)) {
 func opsFor(g *graph, t *truth, full bool) []string {
 	w := g.words()
 	ops := []string{"check " + w}
+	if full && len(g.keys) <= 12 {
+		ops = append(ops, "entries "+w) // every validating entry point must give the same verdict
+	}
+	if full && len(g.keys) <= 6 {
+		ops = append(ops, "aux "+w) // the remaining exported functions against direct oracles
+	}
 	if t.closed && t.acyclic {
 		ops = append(ops, "map "+w, "layout "+w)
 		if full {
